@@ -2,7 +2,7 @@
 # usage: tools/mutwave.sh <tier> [name-prefix]   run every own mutant against the check of its property (4 at a time)
 tier="${1:-quick}"; pre="$2"
 cd /verif
-ls mutants | grep "^$pre" | xargs -P 4 -I{} sh -c '
+ls mutants | grep "^$pre" | xargs -P 2 -I{} sh -c '
   prop=$(python3 -c "import json;print(json.load(open(\"mutants/{}/meta.json\"))[\"property\"])")
   out=$(tools/mutest.sh mutants/{}/patch.diff '"$tier"' $prop 2>&1)
   if echo "$out" | grep -q "^VIOLATION"; then res=CAUGHT; elif echo "$out" | grep -q "^ERROR\|patch does not\|does not build"; then res=ERROR; else res=MISSED; fi
